@@ -58,10 +58,13 @@ struct SplineIO {
     out.i64((int64_t)sp.size());
     put_elem(out, sp.start());
     put_elem(out, sp.end());
-    smooth::Tangent<G> v, a;
-    put_elem(out, sp(0.3 * sp.t_max(), v, a));
-    put_mat(out, v);
-    put_mat(out, a);
+    // the whole curve is the observable state: sample every part of it, both ends included
+    for (int i = 0; i <= 8; ++i) {
+      smooth::Tangent<G> v, a;
+      put_elem(out, sp(sp.t_max() * i / 8.0, v, a));
+      put_mat(out, v);
+      put_mat(out, a);
+    }
   }
 };
 
